@@ -127,6 +127,8 @@ func (u *sysUniverse) apply(a SysAct) *sysObs {
 		u.cells = append(u.cells, cell(a.C).Clone())
 	case "FileAdd":
 		u.files[a.F-1].Add(cell(a.C))
+	case "FileAddFile":
+		u.files[a.F-1].Add(u.files[a.D-1])
 	case "ImportName":
 		u.files[a.F-1].ImportName(a.P, a.N)
 	case "ImportAlias":
@@ -193,10 +195,11 @@ func cmdSystemTwin(args []string) {
 	if err := json.Unmarshal(in, &h); err != nil {
 		fatal(err)
 	}
+	contains := sysContains(h)
 	u := &sysUniverse{}
 	res := map[int]string{}
 	for k, a := range h {
-		if a.A == "Plain" || (a.F != 0 && a.F != f) {
+		if a.A == "Plain" || (a.F != 0 && a.F != f && !(contains[f][a.F] && (a.A == "FileAdd" || a.A == "FileAddFile"))) {
 			continue
 		}
 		if o := u.apply(a); o != nil {
@@ -205,6 +208,31 @@ func cmdSystemTwin(args []string) {
 	}
 	b, _ := json.Marshal(res)
 	os.Stdout.Write(b)
+}
+
+// sysContains[f][g]: File g has been added (directly or not) to File f somewhere in this behaviour: g's contents then
+// belong to f's contents (g's own hints and renders still do not)
+func sysContains(h []SysAct) map[int]map[int]bool {
+	contains := map[int]map[int]bool{}
+	for f := 1; f <= len(h[0].Files); f++ {
+		contains[f] = map[int]bool{}
+	}
+	for changed := true; changed; {
+		changed = false
+		for _, b := range h {
+			if b.A == "FileAddFile" {
+				if !contains[b.F][b.D] {
+					contains[b.F][b.D], changed = true, true
+				}
+				for g := range contains[b.D] {
+					if !contains[b.F][g] {
+						contains[b.F][g], changed = true, true
+					}
+				}
+			}
+		}
+	}
+	return contains
 }
 
 func ReplaySystem(tw *TraceWriter, id int, h []SysAct) {
@@ -217,6 +245,7 @@ func ReplaySystem(tw *TraceWriter, id int, h []SysAct) {
 	for _, p := range sysPaths {
 		syms[sysSym(p)] = p
 	}
+	contains := sysContains(h)
 	nobs := 0
 	fresh := map[int]map[int]string{} // file -> action index -> status:hash, from a fresh process (sampled behaviours)
 	if id%5 == 0 {
@@ -247,7 +276,7 @@ func ReplaySystem(tw *TraceWriter, id int, h []SysAct) {
 			var to *sysObs
 			for j := 0; j <= k; j++ {
 				b := h[j]
-				if b.F != 0 && b.F != a.F || (a.A == "Plain" && b.F != 0) || (b.A == "Plain" && j < k) {
+				if (b.F != 0 && b.F != a.F && !(contains[a.F][b.F] && (b.A == "FileAdd" || b.A == "FileAddFile"))) || (a.A == "Plain" && b.F != 0) || (b.A == "Plain" && j < k) {
 					continue
 				}
 				if j == k && a.A == "Plain" {
@@ -476,7 +505,11 @@ func randomSystemHistory(r *rand.Rand, nops int) []SysAct {
 			}
 			h = append(h, SysAct{A: "Clone", C: c})
 		case k < 12:
-			h = append(h, SysAct{A: "FileAdd", F: f, C: 1 + r.Intn(nc)})
+			if f > 1 && r.Intn(5) == 0 {
+				h = append(h, SysAct{A: "FileAddFile", F: f, D: 1 + r.Intn(f-1)}) // a File with a smaller number: no cycles
+			} else {
+				h = append(h, SysAct{A: "FileAdd", F: f, C: 1 + r.Intn(nc)})
+			}
 		case k < 13:
 			key := fmt.Sprint(f, p)
 			n := hintNames[r.Intn(len(hintNames))]
@@ -491,8 +524,15 @@ func randomSystemHistory(r *rand.Rand, nops int) []SysAct {
 		case k < 14:
 			h = append(h, SysAct{A: "ImportAlias", F: f, P: p, N: hintNames[r.Intn(len(hintNames))]})
 		case k < 15:
-			key := fmt.Sprint(f, p)
-			if registered[key] || first.Files[f-1].Local == p {
+			// (Anon on a path that was already referenced with the File is outside C08: conservatively, no Anon once
+			// anything has been rendered with the File - the scenario prefixes render with File 1 as well)
+			seenRender := false
+			for _, b := range h {
+				if (b.A == "Render" || b.A == "Frag") && b.F == f {
+					seenRender = true
+				}
+			}
+			if seenRender || first.Files[f-1].Local == p {
 				continue
 			}
 			h = append(h, SysAct{A: "Anon", F: f, P: p})
